@@ -7,7 +7,8 @@
 (*   C01  VM vs WASM,                                                      *)
 (*   C06  hot-swapped instance vs uninterrupted twin,                      *)
 (*   C16  transformed source vs original,                                  *)
-(*   C09  staged program vs hand expansion.                                *)
+(*   C09  staged program vs hand expansion,                                *)
+(*   C18  generated Rust vs the VM (the generator may refuse).             *)
 (* Values travel as strings of their bit patterns (NaN canonicalised), so  *)
 (* equality here is bit equality.  The specification does not compute      *)
 (* values: it states the relation between the two executions.              *)
@@ -30,10 +31,15 @@ Fail(what) == PrintT(<<"FAIL", ToJson([id |-> R.id, at |-> t, what |-> what])>>)
 NextRecord == /\ l' = l + 1 /\ t' = 0
               /\ (IF l = Len(Rec) THEN PrintT(<<"CONSUMED", ToJson([n |-> Len(Rec)])>>) ELSE TRUE)
 
+(* C18: side b implements a subset of the language and may refuse a program; it may not do     *)
+(* anything else differently (in particular it may not produce something that does not build)  *)
+Subset == "subset" \in DOMAIN R /\ R.subset
+
 (* compile + main: both accept (same channel count) or both refuse *)
 Start ==
   /\ l <= Len(Rec) /\ t = 0
-  /\ IF R.a.status # R.b.status THEN Fail("status") /\ NextRecord
+  /\ IF Subset /\ R.b.status = "refused" THEN NextRecord    \* b may decline programs outside its subset (C18)
+     ELSE IF R.a.status # R.b.status THEN Fail("status") /\ NextRecord
      ELSE IF R.a.status # "ok" THEN NextRecord               \* refused / no dsp on both sides alike
      ELSE IF R.a.nout # R.b.nout THEN Fail("channels") /\ NextRecord
      ELSE IF Len(R.a.out) # Len(R.b.out) THEN Fail("length") /\ NextRecord
